@@ -23,6 +23,8 @@ for prop in args:
                                capture_output=True, text=True, env=dict(os.environ, VERIF_SEED='3'))
             viol = [l for l in r.stdout.splitlines() if l.startswith('VIOLATION')]
             summary = [l for l in r.stdout.splitlines() if l.startswith(chk + ' ')]
+            if 'patch does not apply' in r.stdout + r.stderr:
+                print('    PATCH DOES NOT APPLY for', sid); runs.append('patch does not apply'); continue
             ok = r.returncode == 1 and bool(viol)
             runs.append('%s %s: exit %d, %d VIOLATION line(s)%s; %s' % (chk, tier, r.returncode, len(viol),
                         ' (no-failing-input-found)' if viol and all('no-failing' in v for v in viol) else '',
